@@ -19,6 +19,16 @@ let str_spaces l = if l = [] then "-" else String.concat ";" (List.map string_of
 let str_states l = if l = [] then "-" else String.concat "," (List.map string_of_state l)
 let str_nats l = if l = [] then "-" else String.concat "," (List.map (fun k -> string_of_int (int_of_nat k)) l)
 
+(* names as lists of code points: "97,123;~;98" (~ = empty name) *)
+let rec pos_of_int i = if i <= 1 then XH else if i land 1 = 1 then XI (pos_of_int (i lsr 1)) else XO (pos_of_int (i lsr 1))
+let n_of_int i = if i <= 0 then N0 else Npos (pos_of_int i)
+let rec int_of_pos = function XH -> 1 | XO p -> 2 * int_of_pos p | XI p -> 2 * int_of_pos p + 1
+let int_of_n = function N0 -> 0 | Npos p -> int_of_pos p
+let name_of_string s : name = if s = "~" then [] else List.map (fun x -> n_of_int (int_of_string x)) (String.split_on_char ',' s)
+let string_of_name (nm : name) = if nm = [] then "~" else String.concat "," (List.map (fun c -> string_of_int (int_of_n c)) nm)
+let names_of_string s = if s = "-" then [] else List.map name_of_string (String.split_on_char ';' s)
+let str_names l = if l = [] then "-" else String.concat ";" (List.map string_of_name l)
+
 let str_tag = function None -> "0" | Some _ -> "1"
 let str_result = function
   | RUnit -> "unit" | RBool b -> if b then "true" else "false"
@@ -166,6 +176,10 @@ let () =
                if l = [] then "-" else String.concat " " (List.map str_states l)
            | "redfix" -> str_states (reduced_fixed_b !net (space_of_string (a 1)) (space_of_string (a 2)) (spaces_of_string (a 3)))
            | "reach" -> str_states (reach_list !net (state_of_string (a 1)))
+           | "sanitize" -> (match sanitize (names_of_string (a 1)) with None -> "none" | Some l -> str_names l)
+           | "checkonly" -> if check_only_ok (names_of_string (a 1)) then "true" else "false"
+           | "place" -> string_of_name (place_name (name_of_string (a 1)) (a 2 = "1"))
+           | "unplace" -> (match place_to_variable (name_of_string (a 1)) with None -> "none" | Some (v, b) -> string_of_name v ^ " " ^ (if b then "1" else "0"))
            | "init" -> cur := init !net; dump !cur
            | "dump" -> dump !cur
            | "depth" -> string_of_int (int_of_nat (depth !cur))
@@ -174,8 +188,14 @@ let () =
            | "aseeds" ->
                (* aseeds SIZE MINTAPE NFVSTAPE *)
                let nt = if a 3 = "-" then [] else List.map (fun l -> if l = "~" then [] else nats_of_string l) (String.split_on_char '/' (a 3)) in
+               (* contract of the NFVS tape (ASeedsFacts.nfvs_log_ok), decided by the extracted no_neg_walk_b *)
+               let lg = expand_aseeds_log !fuel !net !cfg !cur (opt_nat (a 1)) (spaces_of_string (a 2)) nt in
+               let nv = List.length !net in
+               let rec nodup = function [] -> true | x :: r -> not (List.mem x r) && nodup r in
+               let bad = List.filter (fun (sp, nfvs) ->
+                   not (nodup nfvs && List.for_all (fun v -> int_of_nat v < nv) nfvs && no_neg_walk_b !net sp nfvs)) lg in
                let (d1, r) = expand_aseeds !fuel !net !cfg !cur (opt_nat (a 1)) (spaces_of_string (a 2)) nt in
-               cur := d1; "result=" ^ str_result r ^ " " ^ dump d1
+               cur := d1; Printf.sprintf "result=%s;tape=%d/%d %s" (str_result r) (List.length lg) (List.length bad) (dump d1)
            | "block" ->
                (* block MAA OPTSRC SIZE TAPE(bits) *)
                let tape = if a 4 = "-" then [] else List.init (String.length (a 4)) (fun i -> (a 4).[i] = '1') in
